@@ -328,6 +328,37 @@ def gen_raise_scenario(R):
     return core.Scenario(lines, {"mode": "raise"})
 
 
+G16_WITNESS = [
+    "scenario comp 0.0.obs,0.1.obs,0.2.comp,0.3.comp,0.4.comp -",
+    "define 0 0 2 ( read 0 0 ( ret 0 ) ( ret 1 ) ( ret 2 ) )",
+    "define 1 0 3 ( read 0 1 ( write 0 0 0 ( ret 1 ) ) ( write 0 0 1 ( ret 1 ) ) ( write 0 0 2 ( ret 1 ) ) )",
+    "define 2 0 4 ( readc 0 ( readc 1 ( ret 0 ) ( ret 1 ) ) ( readc 1 ( ret 1 ) ( ret 2 ) ) ( readc 1 ( ret 2 ) ( ret 3 ) ) )",
+    "assign 0 1 2",
+    "read 2",
+    "read 2",
+]
+
+
+def gen_precheck_write_scenario(R):
+    """directed, open finding G16: c0 = x; c1 = (x = z; return 1); c2 = c0 + c1 (or c1 + c0).  After z changed, the dirty
+    pre-check of c2 validates c0 (unchanged) and then c1, which re-evaluates - as an outermost evaluation with an empty
+    record, the pre-check runs under CURRENT_COMPUTED = None - and assigns x: c0 is dirty again, c1 still gives 1, the
+    pre-check finds nothing changed and c2 is served from its cache although c0 evaluates to the new x.  With c1 read
+    before c0 the pre-check validates c0 after the assignment and c2 recomputes."""
+    rd0 = lambda bs: ("readc", 0, bs)
+    rd1 = lambda bs: ("readc", 1, bs)
+    if R.random() < 0.7:
+        c2 = rd0([rd1([("ret", i), ("ret", i + 1)]) for i in range(3)])
+    else:
+        c2 = rd1([("ret", 0), rd0([("ret", 1), ("ret", 2), ("ret", 3)])])
+    lines = list(G16_WITNESS[:3]) + [f"define 2 0 4 {fmt_tree(c2)}"]
+    for _ in range(R.randrange(1, 5)):
+        lines.append(R.choice([f"assign 0 1 {R.choice([0, 1, 2])}", f"assign 0 1 {R.choice([0, 1, 2])}", "read 2", "read 2", "read 0",
+                               "read 1", f"assign 0 0 {R.choice([0, 1, 2])}"]))
+    lines += [f"assign 0 1 {R.choice([1, 2])}", "read 2", "read 2"]
+    return core.Scenario(lines, {"mode": "cycle"})
+
+
 def gen_cycle_scenario(R):
     """directed: cycles that must be rejected whatever happens between the read and the assignment, and assignments
     that are no cycles.  x = 0.0, y = 0.1 (read by the inner Computable c0), p = 0.4; c1 is the function under test:
@@ -350,8 +381,15 @@ def gen_cycle_scenario(R):
         lines += R.sample(["read 0", f"assign 0 1 {b}", "read 0"], R.randrange(0, 3))
         lines += [f"define 1 0 3 {fmt_tree(later)}", "read 1", f"assign 0 1 {gen_val(R)}", "read 1"]
         return core.Scenario(lines, {"mode": "cycle"})
+    if R.random() < 0.12:
+        return gen_precheck_write_scenario(R)
     inner = ("read", 0, 1, [("ret", 0), ("ret", 1), ("ret", 2)])
-    kind = R.choice(["direct", "direct", "direct", "through", "nocycle"])
+    kind = R.choice(["direct", "direct", "direct", "through", "nocycle", "cached", "cached", "cached-nocycle"])
+    # Computables are numbered in definition order (a function reads only Computables with a smaller number):
+    # ci = the Computable the function under test (co) reads; with a chain ci reads y through Computable 0
+    chain = R.random() < 0.4
+    ci = 1 if chain else 0
+    co = ci + 1
     if kind == "direct":
         t = ("write", 0, 0, v, ("ret", 3))
         for _ in range(R.choice([0, 1, 1, 2, 3])):
@@ -359,31 +397,42 @@ def gen_cycle_scenario(R):
             if m == "write-p":
                 t = ("write", 0, 4, R.choice([0, 1, 2, 1000]), t)
             elif m == "readc":
-                t = ("readc", 0, [t, t, t])
+                t = ("readc", ci, [t, t, t])
             else:
                 t = ("read", 0, 4, [t, t])
         outer = ("read", 0, 0, [t] * 3)
-    elif kind == "through":
-        t = ("write", 0, 1, v, ("ret", 3))
+    elif kind in ("through", "cached", "cached-nocycle"):
+        # cached (finding G15): ci is served from its cache (or re-validated without running) when the function reads
+        # it, so nothing reads y during the evaluation, and yet the function depends on y; cached-nocycle: it assigns
+        # x, which ci does not depend on
+        t = ("write", 0, 0 if kind == "cached-nocycle" else 1, v, ("ret", 3))
         if R.random() < 0.5:
             t = ("write", 0, 4, 1, t)
-        outer = ("readc", 0, [t, t, t])
+        if kind != "through" and R.random() < 0.3:
+            t = ("read", 0, 4, [t, t])
+        outer = ("readc", ci, [t, t, t])
     else:
         t = ("write", 0, 1, v, ("ret", 3))
         outer = ("read", 0, 0, [t, t]) if R.random() < 0.5 else t
     lines = ["scenario comp 0.0.obs,0.1.obs,0.2.comp,0.3.comp,0.4.obs,0.5.comp -", f"assign 0 1 {a}"]
-    if R.random() < 0.4:
-        lines += [f"define 2 0 5 {fmt_tree(inner)}", f"define 0 0 2 {fmt_tree(('readc', 2, [('ret', 0), ('ret', 1), ('ret', 2)]))}"]
+    if chain:
+        lines += [f"define 0 0 5 {fmt_tree(inner)}", f"define 1 0 2 {fmt_tree(('readc', 0, [('ret', 0), ('ret', 1), ('ret', 2)]))}"]
     else:
         lines.append(f"define 0 0 2 {fmt_tree(inner)}")
-    lines += ["read 0", f"assign 0 0 {R.choice([0, 1, 2])}"]
-    if R.random() < 0.8:
-        lines.append(f"assign 0 1 {b}")     # the inner Computable is now dirty and really changed
-    if kind == "nocycle" and R.random() < 0.7:
-        lines.append("read 0")              # … and evaluated again: its read of y is what must not be remembered
-    lines.append(f"define 1 0 3 {fmt_tree(outer)}")
+    lines += [f"read {ci}", f"assign 0 0 {R.choice([0, 1, 2])}"]
+    if kind in ("cached", "cached-nocycle"):
+        if R.random() < 0.5:
+            lines += [f"assign 0 1 {b}", f"assign 0 1 {a}"]      # dirty, but the pre-check finds nothing changed
+        elif R.random() < 0.5:
+            lines += [f"assign 0 1 {b}", f"read {ci}"]            # evaluated by an EARLIER read: clean now
+    else:
+        if R.random() < 0.8:
+            lines.append(f"assign 0 1 {b}")     # the inner Computable is now dirty and really changed
+        if kind == "nocycle" and R.random() < 0.7:
+            lines.append(f"read {ci}")          # … and evaluated again: its read of y is what must not be remembered
+    lines.append(f"define {co} 0 3 {fmt_tree(outer)}")
     for _ in range(R.randrange(0, 4)):
-        lines.append(R.choice([f"assign 0 1 {gen_val(R)}", f"assign 0 0 {gen_val(R)}", "read 1", "read 0"]))
+        lines.append(R.choice([f"assign 0 1 {gen_val(R)}", f"assign 0 0 {gen_val(R)}", f"read {co}", f"read {ci}"]))
     return core.Scenario(lines, {"mode": "cycle"})
 
 
@@ -531,6 +580,22 @@ def spec_eval(comps, store, c, depth=0):
             return "exc"
 
 
+def sources_of(last_reads, c, seen=None):
+    """the Observables Computable c depends on: the ones its last completed evaluation read and, through the Computables it
+    read, the ones those depend on"""
+    seen = set() if seen is None else seen
+    if c in seen:
+        return []
+    seen.add(c)
+    out = []
+    for ref, _ in last_reads.get(c) or []:
+        if ref.startswith("c"):
+            out += sources_of(last_reads, int(ref[1:]), seen)
+        else:
+            out.append(ref)
+    return out
+
+
 def oracle_comp(sc, obs):
     tr = sc.meta.get("trace") or []
     bad = []
@@ -540,6 +605,8 @@ def oracle_comp(sc, obs):
     stack = []           # evaluations in progress: [c, reads]
     record = []          # Observables read, by whichever function, since the outermost evaluation in progress began
     hread_seen = False   # a user handler has read a Computable while being notified (the history of finding G7)
+    nested_write = False # a function other than the one read at top level has assigned an Observable (history of G16)
+    ran = set()
     for ev in tr:
         k = ev[0]
         if k == "hread":
@@ -558,8 +625,10 @@ def oracle_comp(sc, obs):
                 comps[int(w[1])] = (int(w[2]), int(w[3]), tree)
                 writes = writes or has_write(tree)
             cur_op = w
+            ran = set()          # Computables whose function ran during this operation
         elif k == "eval-start":
             _, c, store = ev
+            ran.add(c)
             if not writes and c in last_reads and last_reads[c] is not None:
                 changed = False
                 for ref, v in last_reads[c]:
@@ -573,14 +642,23 @@ def oracle_comp(sc, obs):
         elif k == "eval-read":
             stack[-1][1].append((ev[2], ev[3]))
             if not ev[2].startswith("c"):
-                record.append((ev[2], c))
+                record.append((ev[2], ev[1]))
+            else:
+                # G15: the function depends on whatever the Computable it reads depends on — also when that one was
+                # served from its cache and read nothing now: the Observables its last evaluation read, and so on
+                for kk in sources_of(last_reads, int(ev[2][1:])):
+                    record.append((kk, int(ev[2][1:])))
         elif k == "eval-write":
             _, c, key, v, how = ev
             readers = [rc for kk, rc in record if kk == key]
+            if how == "done" and (len(stack) > 1 or (cur_op[0] in ("read", "define") and int(cur_op[1]) != c)):
+                # an assignment by a function that is not the one being read at top level: it runs inside another
+                # function or inside a dirty pre-check (the history of the open finding G16)
+                nested_write = True
             if how == "done" and readers:
                 # a Computable that is being evaluated depends on `key` — its own function read it, or the function of
                 # a Computable evaluated for it did — and the evaluation assigned it: a cycle
-                who = "read" if c in readers else f"depends (through the evaluation of Computable {readers[0]}) on"
+                who = "read" if c in readers else f"depends (through Computable {readers[0]}) on"
                 bad.append(f"cycle-not-rejected: function of {c} assigned {key}, which the evaluation in progress {who} "
                            f"(reads so far: {[kk for kk, _ in record]}), without being rejected")
             if how == "rejected" and not readers:
@@ -604,6 +682,17 @@ def oracle_comp(sc, obs):
                         bad.append(f"stale{sfx}: `{' '.join(cur_op)}` returned {head.split()[1]}, its function evaluated now gives {want}")
                 elif head == "err Zero" and want not in ("raise", "exc"):
                     bad.append(f"raised-needlessly{sfx}: `{' '.join(cur_op)}` raised although its function evaluated now returns {want}")
+            elif cur_op[0] in ("read", "define") and head.startswith("ok") and int(cur_op[1]) not in ran:
+                # functions assign in this scenario ("evaluated from scratch" is no yardstick then), but a value served
+                # without running the function must still rest on remembered values that are the present ones
+                c = int(cur_op[1])
+                for ref, v in last_reads.get(c) or []:
+                    now = spec_eval(comps, store, int(ref[1:])) if ref.startswith("c") else store[ref]
+                    if now != "exc" and now != v:
+                        name = "stale-after-nested-write" if nested_write else "stale-cached"
+                        bad.append(f"{name}: `{' '.join(cur_op)}` returned {head.split()[1]} without running the function of {c}, "
+                                   f"which read {ref} = {v} last time; it is {now} now")
+                        break
     return bad
 
 
@@ -615,22 +704,39 @@ def tags_comp(sc, obs):
     tr = sc.meta.get("trace") or []
     depth = 0
     mx = 0
+    direct = set()       # Observables read by a function that ran during the outermost evaluation in progress
+    top = ["-"]
     for e in tr:
         if e[0] == "eval-start":
             depth += 1
             mx = max(mx, depth)
+            if depth == 1 and top[0] in ("read", "define") and int(top[1]) != e[1]:
+                yield "branch:evaluation-inside-top-level-pre-check"
         elif e[0] == "eval-end":
             depth -= 1
+            if depth == 0:
+                direct = set()
             if e[2] == "exc":
                 yield "branch:evaluation-raised"
+        elif e[0] == "eval-read" and not e[2].startswith("c"):
+            direct.add(e[2])
+        elif e[0] == "eval-read":
+            yield "branch:function-reads-computable"
         elif e[0] == "eval-write":
             yield "branch:write-" + e[4]
+            if e[4] == "rejected" and e[2] not in direct:
+                yield "branch:write-rejected-through-cached-computable"
+        elif e[0] == "op":
+            top = e[1].split()
     if mx >= 2:
         yield "branch:nested-evaluation"
     for l, o in zip(sc.lines[1:], obs[1:]):
         yield "op:" + l.split()[0]
         if o.startswith("err"):
             yield "reject:" + l.split()[0] + ":" + o.split()[1]
+    for cl in oracle_comp(sc, obs):
+        if cl.startswith("stale-after-nested-write"):
+            yield "known:G16-stale-after-write-inside-pre-check"
     # a read that did not re-run the function although the Computed was dirty / a branch switch
     prev = None
     for l, o in zip(sc.lines[1:], obs[1:]):
@@ -638,3 +744,52 @@ def tags_comp(sc, obs):
         if l.startswith("read") and prev is not None and evs == prev:
             yield "branch:read-served-from-cache"
         prev = evs
+
+
+# ------------------------------------------------------------------------------------------
+# open finding G17: an owner the function read is garbage-collected (quantifier item; not in the model)
+
+GC_WITNESS = ["scenario gc-witness", "define c = a.y + (b.x if b is alive else 0)", "read c", "drop-owner b", "read c"]
+
+
+def run_gc_witness(sc):
+    """a.y = 1, b.x = 5, c = Computed(a.y + (b.x if b alive else 0)) on a, the function reaching b through a weak reference;
+    b is collected; c is read again.  Observations: the values read and what the function gives when called directly"""
+    import gc
+    import weakref
+
+    ms, _ = _mesa()
+
+    class A(ms.HasObservables):
+        y = ms.Observable()
+        c = ms.Computable()
+
+    class B(ms.HasObservables):
+        x = ms.Observable()
+
+    a, b = A(), B()
+    a.y, b.x = 1, 5
+    rb = weakref.ref(b)
+
+    def f():
+        bb = rb()
+        return a.y + (bb.x if bb is not None else 0)
+
+    obs = ["ok", "ok 0"]
+    a.c = ms.Computed(f)
+    obs.append(f"ok {a.c}")
+    del b
+    gc.collect()
+    obs.append("ok 0" if rb() is None else "err Alive")
+    got = a.c
+    obs.append(f"ok {got}")
+    sc.meta["gc"] = {"served": got, "now": f()}
+    return obs
+
+
+def oracle_gc_witness(sc, obs):
+    g = sc.meta.get("gc") or {}
+    if obs[3] == "ok 0" and g.get("served") != g.get("now"):
+        return [f"stale-after-owner-collected: reading c returned {g.get('served')} after the owner b it read was garbage-collected, "
+                f"its function evaluated now gives {g.get('now')}"]
+    return []
